@@ -137,7 +137,7 @@ def fault_step_of(case):
 def run_with_fault_plan(case):
     """C14: real run first (where does the k-th call fall?), then the model with the derived plan"""
     b = fault_step_of(case)
-    case['steps'][b][5] = {'inject': case['steps'][b][5]['inject']}
+    case['steps'][b][5] = {'inject': case['steps'][b][5]['inject'], 'inject_exc': case['steps'][b][5].get('inject_exc')}
     r = hist.real_worker(case)
     if 'harness_error' in r:
         raise core.HarnessError(r['harness_error'])
@@ -421,7 +421,7 @@ def c13_cases(tier, ds):
 
 
 def check_C13(tier):
-    return run_hist_prop('C13', tier, 13, 200, 10000, families=[gen.scen_reads, gen.scen_stamped], per_family=(150, 4000),
+    return run_hist_prop('C13', tier, 13, 200, 10000, families=[gen.scen_reads, gen.scen_stamped, gen.scen_selfread], per_family=(120, 3000),
                          extra_cases=c13_cases, prof=dict(gen.DEFAULT_PROFILE, p_hash=0.5))
 
 
@@ -599,7 +599,8 @@ def c16_cases(tier, ds):
             # the cache write of one build whose root function succeeds fails (disk full / cannot create):
             # the previous cache content must be back - or no cache file left, if there was none
             b = rng.choice([i_ for i_, st_ in enumerate(steps) if st_[3] == 0])
-            steps[b] = steps[b] + [{'inject_op': rng.choice(['write-cache', 'open-for-write']), 'abort': 'end'}]
+            steps[b] = steps[b] + [{'inject_op': rng.choice(['write-cache', 'open-for-write']), 'abort': 'end',
+                                    'inject_exc': rng.choice(['EIO', 'ENOSPC', 'ValueError', 'ValueError'])}]
             if rng.random() < 0.5:
                 steps.insert(b + 1, ['clean', 'n'])
         if rng.random() < 0.5:
@@ -807,7 +808,7 @@ def c14_jobs(tier, ds):
             for k in ks:
                 j = json.loads(json.dumps(c))
                 j['steps'] = j['steps'][:b + 3]
-                j['steps'][b] = j['steps'][b][:5] + [{'inject': k}]
+                j['steps'][b] = j['steps'][b][:5] + [{'inject': k, 'inject_exc': rng.choice(['EIO', 'EXDEV', 'EACCES', 'ENOSPC', 'EPERM', 'EXDEV'])}]
                 j['seed'] = '%s@step%d,k%d' % (c.get('seed'), b, k)
                 j['fault_step'] = b
                 jobs.append(j)
